@@ -189,20 +189,24 @@ func (c *Canon) render(v ssa.Value, d int) string {
 	case *ssa.Builtin:
 		return v.Name()
 	case *ssa.Alloc:
-		// a local that is stored exactly once stands for the stored value
-		var st *ssa.Store
-		n := 0
-		for _, ref := range *v.Referrers() {
-			if s, ok := ref.(*ssa.Store); ok && s.Addr == v {
-				st = s
-				n++
+		// a local that is only stored to and loaded from (also by closures that merely read
+		// it) stands for the value(s) stored into it: one store -> that value, several -> μ(set).
+		if vals, strict, ok := c.allocStores(v); ok {
+			if len(vals) == 1 {
+				return "&{" + c.termD(vals[0], d+1) + "}"
 			}
-			if _, ok := ref.(*ssa.MakeClosure); ok {
-				n += 2 // captured: may be written elsewhere
+			if strict && len(vals) > 1 && len(vals) <= 6 {
+				set := map[string]bool{}
+				for _, x := range vals {
+					set[c.termD(x, d+1)] = true
+				}
+				var xs []string
+				for k := range set {
+					xs = append(xs, k)
+				}
+				sort.Strings(xs)
+				return "&μ(" + strings.Join(xs, "|") + ")"
 			}
-		}
-		if n == 1 {
-			return "&{" + c.termD(st.Val, d+1) + "}"
 		}
 		if lit, ok := c.compositeLit(v, d); ok {
 			return lit
@@ -240,6 +244,9 @@ func (c *Canon) render(v ssa.Value, d int) string {
 				}
 				if strings.HasPrefix(t, "&{") && strings.HasSuffix(t, "}") {
 					return t[2 : len(t)-1]
+				}
+				if strings.HasPrefix(t, "&μ(") {
+					return t[1:]
 				}
 				if strings.HasPrefix(t, "&") && strings.HasSuffix(t, "}") && strings.Contains(t, "{") {
 					return t[1:]
@@ -347,7 +354,7 @@ func (c *Canon) render(v ssa.Value, d int) string {
 	case *ssa.MakeSlice:
 		return "make(" + short(v.Type().String()) + "," + c.termD(v.Len, d+1) + ")"
 	case *ssa.MakeChan:
-		return "make(" + short(v.Type().String()) + ")"
+		return "make(" + short(v.Type().String()) + "," + c.termD(v.Size, d+1) + ")"
 	case *ssa.Range:
 		return "range(" + c.termD(v.X, d+1) + ")"
 	case *ssa.Next:
@@ -671,10 +678,16 @@ func (c *Canon) compositeLit(a *ssa.Alloc, d int) (string, bool) {
 			}
 		}
 	}
+	var parts []string
+	for _, ref := range *a.Referrers() {
+		if st2, ok := ref.(*ssa.Store); ok && st2.Addr == ssa.Value(a) {
+			parts = append(parts, "="+c.termD(st2.Val, d+1))
+		}
+	}
+	sort.Strings(parts)
 	if len(vals) == 0 {
 		return "", false
 	}
-	var parts []string
 	for i := 0; i < st.NumFields(); i++ {
 		if v, ok := vals[i]; ok {
 			parts = append(parts, st.Field(i).Name()+":"+v)
@@ -682,4 +695,97 @@ func (c *Canon) compositeLit(a *ssa.Alloc, d int) (string, bool) {
 	}
 	name := short(pt.Elem().String())
 	return "&" + name + "{" + strings.Join(parts, ", ") + "}", true
+}
+
+// allocStores returns the values stored directly into the local, provided the local is used in
+// no other way than whole-value stores, loads, and captures by closures that never store to it
+// (no partial field/element writes, no address passed to a call).
+func (c *Canon) allocStores(a *ssa.Alloc) ([]ssa.Value, bool, bool) {
+	var vals []ssa.Value
+	strict := true
+	for _, ref := range *a.Referrers() {
+		switch r := ref.(type) {
+		case *ssa.Store:
+			if r.Addr != ssa.Value(a) {
+				return nil, false, false // the address itself is stored somewhere
+			}
+			vals = append(vals, r.Val)
+		case *ssa.UnOp, *ssa.DebugRef:
+		case *ssa.MakeClosure:
+			fn := r.Fn.(*ssa.Function)
+			for i, b := range r.Bindings {
+				if b == ssa.Value(a) && i < len(fn.FreeVars) && freeVarWritten(fn.FreeVars[i], 0) {
+					return nil, false, false
+				}
+			}
+		case *ssa.FieldAddr, *ssa.IndexAddr:
+			// partial reads are fine, partial writes are not
+			if addrWritten(r.(ssa.Value), 0) {
+				return nil, false, false
+			}
+		case *ssa.Slice:
+			strict = false
+		case ssa.CallInstruction:
+			// address handed to a callee (hash := f(); g(&hash)): the single initial value still
+			// identifies the variable, but several stores are no longer a closed set
+			strict = false
+		default:
+			return nil, false, false
+		}
+	}
+	return vals, strict, len(vals) > 0
+}
+
+func addrWritten(v ssa.Value, depth int) bool {
+	if depth > 4 {
+		return true
+	}
+	for _, ref := range *v.Referrers() {
+		switch r := ref.(type) {
+		case *ssa.Store:
+			if r.Addr == v {
+				return true
+			}
+			return true // address escapes into memory
+		case *ssa.UnOp, *ssa.DebugRef:
+		case *ssa.FieldAddr:
+			if addrWritten(r, depth+1) {
+				return true
+			}
+		case *ssa.IndexAddr:
+			if addrWritten(r, depth+1) {
+				return true
+			}
+		default:
+			return true
+		}
+	}
+	return false
+}
+
+func freeVarWritten(fv *ssa.FreeVar, depth int) bool {
+	if depth > 3 {
+		return true
+	}
+	for _, ref := range *fv.Referrers() {
+		switch r := ref.(type) {
+		case *ssa.Store:
+			return true
+		case *ssa.UnOp, *ssa.DebugRef:
+		case *ssa.MakeClosure:
+			fn := r.Fn.(*ssa.Function)
+			for i, b := range r.Bindings {
+				if b == ssa.Value(fv) && i < len(fn.FreeVars) && freeVarWritten(fn.FreeVars[i], depth+1) {
+					return true
+				}
+			}
+		case *ssa.FieldAddr, *ssa.IndexAddr:
+			if addrWritten(r.(ssa.Value), 0) {
+				return true
+			}
+		default:
+			return true
+		}
+	}
+	return false
 }
